@@ -1206,7 +1206,8 @@ public:
       size_t ii{};
       for (; ii < eeii; ii += 4)
       {
-         auto next(*reinterpret_cast<const std::uint32_t *>(from + ii));
+         std::uint32_t next;
+         ::memcpy(&next, from + ii, sizeof(next));	// from + ii is not necessarily aligned for a 32 bit load
          auto expected_overflow((ret & OVERFLOW_MASK) ^ (OVERFLOW_MASK & next));
          ret += next;
          overflowtmp += (expected_overflow ^ ret) & OVERFLOW_MASK;
